@@ -469,6 +469,11 @@ where
         for i in from..stored_to {
             if unlikely(hole_iter.peek() == Some(&&i)) {
                 hole_iter.next();
+                // A deleted slot may still carry a pending update (e.g. restored by a rollback):
+                // skip it too, or every later update in the range would be ignored.
+                if unlikely(update_iter.peek().is_some_and(|&(&k, _)| k == i)) {
+                    update_iter.next();
+                }
                 byte_off += Self::SIZE_OF_T;
                 continue;
             }
@@ -518,6 +523,11 @@ where
         for i in from..stored_to {
             if unlikely(hole_iter.peek() == Some(&&i)) {
                 hole_iter.next();
+                // A deleted slot may still carry a pending update (e.g. restored by a rollback):
+                // skip it too, or every later update in the range would be ignored.
+                if unlikely(update_iter.peek().is_some_and(|&(&k, _)| k == i)) {
+                    update_iter.next();
+                }
                 byte_off += Self::SIZE_OF_T;
                 continue;
             }
